@@ -232,9 +232,22 @@ class RealMk:
     def series(self, name, n, missing=True):
         import numpy as np
 
-        return np.array([np.nan if v is None else float(v) for v in self.values[name]], dtype=np.float64)
+        a = np.array([np.nan if v is None else float(v) for v in self.values[name]], dtype=np.float64)
+        # a grid entry may ask for the real run to receive the same numbers as an array of a narrower type
+        # ("dtype": for the data series x; "dtype_<name>" for another series); the model keeps exact reals,
+        # so arithmetic carried out in the narrow type shows up as a conformance mismatch
+        dt = self.values.get("dtype_" + name) or (self.values.get("dtype") if name == "x" else None)
+        if dt:
+            b = a.astype(dt)
+            if not np.array_equal(b.astype(np.float64), a, equal_nan=True):
+                raise AssertionError("grid entry %r is not exactly representable as %s" % (self.values[name], dt))
+            a = b
+        return a
 
-    flags = series
+    def flags(self, name, n, missing=True):
+        import numpy as np
+
+        return np.array([np.nan if v is None else float(v) for v in self.values[name]], dtype=np.float64)
 
     def real(self, name):
         return float(self.values[name])
